@@ -102,6 +102,9 @@ def check(run):
             elif kind == "reverse":
                 from ..lin import Lin
                 good = isinstance(term, tuple) and term[0] == "revslice" and term[1] == ("group", sp[1], 1) and term[2] == Lin(-2) and term[3] == Lin(0)
+                # the same value spelled s[1:-1][::-1]: the full reversal of the unquoted literal
+                good = good or (isinstance(term, tuple) and term[0] == "revslice" and term[2] is None and term[3] is None and
+                                term[1] == ("slice", ("group", sp[1], 1), Lin(1), Lin(-1)))
                 if good:
                     quoted_groups.add(1)
             else:
